@@ -93,6 +93,11 @@ def make(pb, cls, L, rate, t0=None, nchan=3, extra=(), center_freq=None, chan_bw
         if no_swap and how == "swapped":
             how = "strided"              # (an out= target keeps the dtype it was made with: classes with a dtype requirement recast a swapped buffer)
         data = relayout(data, how)
+    # a whole-number rate is also given as an integer-typed Quantity (header values): 1/rate must not become an integer division
+    if os.environ.get("PBVERIF_LAYOUT", "1") != "0" and isinstance(rate, u.Quantity) and rate.dtype.kind == "f" \
+            and float(rate.value).is_integer() and 1 < rate.value < 2**31 \
+            and zlib.crc32(repr((cls, int(L), str(rate), str(t0), "rate")).encode()) % 5 == 0:
+        rate = u.Quantity(int(rate.value), rate.unit, dtype=np.int64)
     # arguments equal to their documented defaults are left out: the defaults are part of the interface
     kw = dict(sample_rate=rate)
     if t0 is not None:
